@@ -67,7 +67,8 @@ def result_propagated(an, cs):
         return False, "a path from the call reaches a return without testing the Result"
     n_err = 0
     for t, st in leaves:
-        if ("var", R, "Err") in st.facts:
+        # facts of an expanded outcome are expressed in the resolved merge values: look the result up in that form too
+        if ("var", R, "Err") in st.facts or ("var", an.simp(R, st.facts), "Err") in st.facts:
             n_err += 1
             if not (t.op == "agg" and t.args[3] == "Err"):
                 return False, "an outcome reached with the I/O result being Err returns %s instead of an error" % pp(t)[:160]
